@@ -36,11 +36,11 @@ func (v vis) prefix() string {
 
 var visNames = []string{"absent", "private", "pub", "event"}
 
-func c15F1Count() int { return 4 * 3 * 3 * 3 * 16 }
+func c15F1Count() int { return 4 * 3 * 3 * 3 * 16 * 3 }
 
 func c15F1(idx int, r *Result) {
-	d := radix(idx, 16, 3, 3, 3, 4)
-	imp, tv, vv, gv, fv := d[0], vis(d[1]), vis(d[2]), []vis{absent, public, event}[d[3]], vis(d[4])
+	d := radix(idx, 3, 16, 3, 3, 3, 4)
+	order, imp, tv, vv, gv, fv := d[0], d[1], vis(d[2]), vis(d[3]), []vis{absent, public, event}[d[4]], vis(d[5])
 	var lib strings.Builder
 	if vv != absent {
 		fmt.Fprintf(&lib, "%slet v = 41;\n", vv.prefix())
@@ -84,6 +84,21 @@ func c15F1(idx int, r *Result) {
 			body = append(body, "    let t: T = new { x: 5 };\n    println(t.x);")
 			want.WriteString("5\n")
 		}
+	}
+	// the items of the list in the order above, reversed (the type first), or rotated by one
+	switch order {
+	case 1:
+		for i, j := 0, len(imports)-1; i < j; i, j = i+1, j-1 {
+			imports[i], imports[j] = imports[j], imports[i]
+		}
+	case 2:
+		if len(imports) > 1 {
+			imports = append(imports[1:], imports[0])
+		}
+	}
+	if order > 0 && len(imports) < 2 {
+		r.Note("inapplicable", 1)
+		return
 	}
 	var m strings.Builder
 	if len(imports) > 0 {
